@@ -658,7 +658,11 @@ func (e *Engine) load(place *Term, ctx *Ctx, at ssa.Value) *Term {
 		alts = append(alts, v)
 	}
 	if !must {
-		if base.Op == OpNew && len(cands) == 0 && len(path) == 0 && isArrayObj(base) {
+		if base.Op == OpNew && len(visible) == 0 && isArrayObj(place) {
+			// contents of an array inside a repository-allocated object that
+			// no visible store writes whole: keep the place's identity
+			alts = append(alts, &Term{Op: OpDeref, Args: []*Term{place}, Typ: derefType(place)})
+		} else if base.Op == OpNew && len(cands) == 0 && len(path) == 0 && isArrayObj(base) {
 			// contents of a repository-allocated array that no store writes
 			// whole: keep the buffer's identity (element writes via copy /
 			// indexed stores are the layout and effects engines' business)
